@@ -1,4 +1,5 @@
 //! Independent oracles: written from the specifications, sharing no code with the crates under test.
 pub mod b64;
 pub mod psl;
+pub mod rp;
 pub mod punycode;
